@@ -3,3 +3,4 @@ INVARIANTS NotAccepted
 CONSTRAINT Progress
 POSTCONDITION Post
 CHECK_DEADLOCK FALSE
+ALIAS Short
